@@ -16,6 +16,7 @@ import (
 	"path/filepath"
 	"reflect"
 	"regexp"
+	"sort"
 	"strconv"
 	"strings"
 	"text/template"
@@ -329,6 +330,11 @@ func (c *RootConfig) Initialize(ctx context.Context) error {
 		}
 	}
 
+	// Expand nested recursive packages from the most specific one to the least
+	// specific one (a package path sorts after every path it is nested in), so
+	// that a sub-package inherits from its nearest recursive ancestor and the
+	// result does not depend on map iteration order.
+	sort.Sort(sort.Reverse(sort.StringSlice(recursivePackages)))
 	for _, recursivePackageName := range recursivePackages {
 		pkgLog := log.With().Str(logging.LogKeyPackagePath, recursivePackageName).Logger()
 		pkgCtx := pkgLog.WithContext(ctx)
